@@ -9,36 +9,6 @@ from gen import c13_values as V
 from lib.common import model_run_parallel, src_hashes
 
 PID = "C13"
-RULE = ("correspondence: every MdParserConfig field x (fixed universe of values of every JSON/YAML type incl. tuple/set/"
-        "callable spellings, wrong types, nested wrong types + grammar-generated values) through the constructor, "
-        "dc.replace/copy on a non-default base, merge_file_level and the real docutils OptionParser, extracted Coq model vs "
-        "implementation, relation = canonicalised as_dict() (list==tuple, sets as sets, callables by qualified name) / "
-        "error class / number of topmatter warnings; search: independent documented-type predicate vs acceptance, "
-        "canonical stored form, front-matter vs global doctree equality on generated documents, global config unchanged, "
-        "one myst.topmatter warning per invalid value; non-trivial = value is not of the documented type, or is coerced, "
-        "or is a dict merged over a non-empty global value")
-TRUSTED = ["round 3: coq/Gen/ConfigSrc.v is regenerated from dc_validators.py / config/main.py by gen/c13_src.py: control flow "
-           "(if/for/continue/return/raise/try-except, and/or/not) by gen/c13_pywalk.py, atomic expressions and simple statements "
-           "by the tables of gen/c13_src.py into coq/Cfg/CfgSrcPrelude.v (isinstance -> isinst, len -> jv_len, x[k] / k in x -> "
-           "total dict/seq accessors, generator expressions all(isinstance..) -> forallb, set(value) -> canonical str set, "
-           "set(value).difference(names) -> ext_diff, setattr(inst, field.name, x) -> the validator's result, "
-           "setattr/getattr(new, name, ..) -> cfg_set/cfg_get, validate_field(new, ..) -> validate + the validator's own setattr on "
-           "new, warning(MD_TOPMATTER, msg) -> a warning kind chosen by the head of the message, raise X(..) -> Raise X); "
-           "proved equal to the hand model in Cfg/CfgSrcProofs.v",
-           "coq/Cfg/Cfg.v is a hand transcription of dc_validators.py, the custom validators, MdParserConfig.__post_init__/copy, "
-           "merge_file_level and the docutils option decoding (checked by correspondence, not proved)",
-           "coq/Gen/Config.v is regenerated from config/main.py on every run by gen/c13_config.py (fail-closed ast translator)",
-           "Python dict invariants (unique keys) - the model iterates (key, value) pairs",
-           "floats are abstracted to (integral part, has-fraction flag)"]
-ORACLES = {"O_yaml": "yaml.safe_load of a docutils option string: the parsed value is passed to the model next to the string "
-                     "(correspondence 'docutils' cases exercise it on the real PyYAML)",
-           "O_import": "importlib.import_module/getattr for heading_slug_func strings: a fixed table of import strings "
-                       "(callable / non-callable / missing attribute / missing module / no dot) is given to the model and "
-                       "exercised against the real interpreter in every run",
-           "O_optparse": "docutils.frontend.OptionParser calls the per-option validator once on the option string "
-                         "(checked by the 'docutils' correspondence cases through the real OptionParser)"}
-ASSUMPTIONS = ["JSON/YAML typing: a bool is not an int, 2.0 is not an int; list and tuple are one sequence type",
-               "docutils halt_level/report_level at their harness defaults"]
 
 
 
@@ -1243,25 +1213,75 @@ def replay(ctx, data):
     return 0 if ok else 1
 
 
-LEVEL_TEXT = ("Proof (Coq): for every documented type the validator tree built from the dc_validators combinators and the custom "
-              "validators accepts exactly the values of that type (C13_combinators_sound_complete, induction on the type "
-              "descriptor); every row of the field table REGENERATED from config/main.py carries the validator of its documented "
-              "type (C13_fields_match_types, finite table, bound = the fields present); stored values are fixed points of their "
-              "validator and independent of the spelling (list/tuple/set, order, repetition; list-of-names vs dict url_schemes); "
-              "for every validated global config, field and value, front matter myst:{f:v} yields exactly config.copy(f=v) "
-              "(dict options merged over the global value), an invalid value leaves the config unchanged with exactly one "
-              "topmatter warning, the global config is never written; a docutils option string and a Sphinx conf value give the "
-              "configuration of the constructor on the decoded value; create_md_parser (REGENERATED as config -> abstract parser "
-              "description) handles every extension name the validator accepts and tests no other, gives the same parser for "
-              "every spelling of the same values, and in commonmark_only / gfm_only mode ignores the extensions exactly as coded. Tie: regenerated table + differential correspondence of the "
-              "extracted model with MdParserConfig / copy / merge_file_level / the real docutils OptionParser / "
-              "sphinx_ext.create_myst_config on every field x values of every JSON type; the real call sequence of create_md_parser "
-              "(recording stand-in for MarkdownIt) vs the regenerated description, and rule/option observations on the real MarkdownIt.")
-LEVEL_NOTE = ("Trusted: Coq kernel; the hand transcription of dc_validators.py, the check_* validators, __post_init__/copy, "
-              "merge_file_level and _attr_to_optparse_option in coq/Cfg/Cfg.v (tied by correspondence, not proved); the documented "
-              "types in coq/Cfg/CfgSpec.v (annotation -> type, plus the documented refinements of the custom-validated options); "
-              "gen/c13_config.py; PyYAML and importlib as oracles (their results are inputs of the model); docutils' "
-              "validate_boolean/validate_comma_separated_list transcribed as modelled externals; int() parsing and str.lower modelled "
-              "for ASCII. The effect on the rendered document (doctree under front matter == under the global setting) is checked on "
-              "generated documents by the search oracle only; commonmark_only is excluded there because the CommonMark-only parser "
-              "renders the front-matter block as text. Floats are abstracted to (integral part, has-fraction).")
+# ------------------------------------------------------------------ final texts (MANIFEST level_claimed / level_note)
+RULE = ("gen (fail-closed, every run): Gen/Config.v (fields, validator trees, flags, defaults, extension names, the "
+        "_attr_to_optparse_option if-chain, fields written in place at run time), Gen/ConfigSrc.v (dc_validators closures, all "
+        "check_* validators, merge_file_level translated statement by statement), Gen/MdParserSrc.v (create_md_parser); "
+        "correspondence: every field x (fixed universe of values of every JSON/YAML type incl. tuple/set/callable spellings, wrong "
+        "and nested-wrong types, + grammar-generated values) through the constructor, copy on a non-default base (incl. WHICH "
+        "containers the copy shares with the base, by object identity), merge_file_level (single and multi-key front matter), "
+        "the real docutils OptionParser, sphinx_ext.create_myst_config, and the real call sequence of create_md_parser, extracted "
+        "Coq model vs implementation, relation = canonicalised as_dict() (list==tuple, sets as sets, callables by qualified name) "
+        "/ error class / warning kinds / global-unchanged flag; search: independent documented-type predicate vs acceptance, "
+        "canonical stored form, front matter == copy, one myst.topmatter warning per invalid value, deep snapshot of the global "
+        "config, object identity for in-place-written fields, doctree under front matter == under the global setting on "
+        "generated documents, Sphinx projects with the config-writing directive (figure-md) with/without front matter, parser "
+        "observations on the real MarkdownIt; non-trivial = value outside the documented type, or coerced, or merged over a "
+        "non-empty global value")
+TRUSTED = [
+    "Coq 8.16.1 kernel; statements of coq/Props/C13.v; the documented types of coq/Cfg/CfgSpec.v (annotation -> type, plus the "
+    "documented refinements of the custom-validated options; JSON/YAML typing: bool is not int, float is not int)",
+    "gen/c13_config.py, gen/c13_src.py, gen/c13_mdit.py, gen/c13_pywalk.py (walker for control flow) and their domain mappings "
+    "(meaning of atomic expressions / simple statements: coq/Cfg/CfgSrcPrelude.v, coq/Cfg/MdParserPrelude.v): isinstance -> isinst, "
+    "len -> jv_len, x[k] / k in x -> total accessors behind the isinstance test of the same and/or chain, all(isinstance..) -> "
+    "forallb, set(value) -> canonical str set, setattr(inst, field.name, x) -> the validator's result, setattr/getattr(new, ..) -> "
+    "cfg_set/cfg_get on the copy, validate_field(new, ..) -> validate + the validator's own setattr applied to new, "
+    "warning(MD_TOPMATTER, msg) -> a warning kind chosen by the head of the message, raise X(..) -> Raise X, importlib -> oracle "
+    "e_import (ImportError, outside the model's enum, via a catch test), config.<field> -> cfg_val, MarkdownIt chains -> steps",
+    "hand-modelled and tied by correspondence only: MdParserConfig.__init__/__post_init__/copy (dc.replace), validate_field(s), "
+    "the docutils decoders (_validate_int, validate_boolean, validate_comma_separated_list, _create_validate_tuple/yaml, "
+    "_validate_url_schemes), sphinx_ext.create_myst_config, dict invariants (unique keys), floats abstracted to (integral part, "
+    "has-fraction), int()/lower() for ASCII",
+]
+ORACLES = {
+    "O_yaml": "yaml.safe_load of a docutils option string: the parsed value is an input of the model (docutils correspondence cases)",
+    "O_import": "importlib for heading_slug_func strings: a table (callable / non-callable / missing attribute / missing module) "
+                "computed in the running interpreter on every run and given to the model",
+    "O_optparse": "docutils.frontend.OptionParser calls the option validator once per option (exercised through the real OptionParser)",
+    "O_linkify": "md.linkify is not None (linkify-it-py installed) is the parameter has_linkify of the parser description; both values are exercised",
+}
+ASSUMPTIONS = ["JSON/YAML typing: a bool is not an int, 2.0 is not an int; list and tuple are one sequence type",
+               "docutils halt_level/report_level at the harness defaults",
+               "front-matter/global equivalence of the RENDERED document is a search result (docutils front end; sub_delimiters/"
+               "ref_domains through Sphinx); commonmark_only is excluded there (that parser has no front-matter rule)"]
+LEVEL_TEXT = (
+    "Proof (Coq, 26 theorems, all closed, coqchk). FULL: validators built from the dc_validators combinators and the check_* "
+    "functions accept exactly the documented type (C13_combinators_sound_complete, induction on the type), for every row of the "
+    "REGENERATED field table (C13_fields_match_types; bound = the 30 fields); stored values are fixed points of their validator "
+    "and independent of the spelling (C13_normal_form, _set_spellings, _url_spellings); the constructor yields a stable instance; "
+    "for every validated global config, field and value, front matter myst:{f:v} yields exactly config.copy(f=v) (dict options "
+    "merged over the global value), an invalid value leaves the config unchanged with exactly one topmatter warning and would be "
+    "rejected globally too (C13_frontmatter_equals_global, C13_invalid_ignored_once), the global config is never written "
+    "(C13_global_untouched); docutils option strings and Sphinx conf values give the constructor's configuration "
+    "(C13_docutils_strings_equal over the REGENERATED _attr_to_optparse_option chain, _int_roundtrip, _bool_spellings, "
+    "_comma_list, C13_sphinx_conf_equal); C13_validator_code_reached lists the validator / option-decoding code no field reaches. "
+    "SOURCE-TRANSLATION TIE: C13_source_refines_model (the closures of instance_of/optional/in_/deep_iterable/deep_mapping, all "
+    "seven check_* validators and merge_file_level, REGENERATED statement by statement, equal the model), "
+    "C13_fields_match_types_src, C13_frontmatter_equals_global_src; create_md_parser REGENERATED as config -> parser description: "
+    "C13_extensions_all_handled (no accepted-but-ignored and no dead extension name across check_extensions / create_md_parser / "
+    "the rest of the package), C13_parser_same_for_spellings, C13_only_modes_as_coded. Container sharing: C13_copy_o_is_copy, "
+    "C13_inplace_written_fields_fresh (every field mutated in place at run time - REGENERATED list, today enable_extensions by "
+    "figure-md - gets a fresh container in every copy). Tie: regenerated tables and code + differential correspondence + direct "
+    "search oracle (see rule).")
+LEVEL_NOTE = (
+    "PARTIAL / refuted: C13_copy_shares_nothing_partial holds for always-coercing fields only; C13_copy_shares_refuted - the real "
+    "code shares the containers of disable_syntax, ref_domains, number_code_blocks, html_meta, substitutions, suppress_warnings, "
+    "inventories (and inner dicts of url_schemes/substitutions/inventories) between the global and the per-document config; nothing "
+    "writes to them in place, so this is an observation, not a finding. C13_frontmatter_raw_assignment_refuted documents the "
+    "pre-repair code. No open finding. Fix commits in /repo (each reproduced by the search first, baseline green): e1d7b46 "
+    "(front matter keeps the coerced value / restores on invalid), 10e0b30 (int options reject bool/float), 428ced7 "
+    "(heading_anchors=None), 5b78c1e (url_schemes classes), 28a219b (enable_extensions container type), 2fafaa5 (heading_slug_func "
+    "AttributeError), e60d3ec (--myst-url-schemes strips items), 782b8eb (words_per_minute must be positive). Observations: "
+    "commonmark_only/gfm_only ignore enable_extensions, disable_syntax and all other options (docs promise nothing else); "
+    "global_only options set in front matter are applied to the per-document config like any other (no global_only test in the "
+    "code). Limits: rendered-document equivalence is search-only; floats abstracted; int()/lower() ASCII; dict key uniqueness assumed.")
